@@ -1,4 +1,4 @@
-From RsdnsModel Require Import Base GenTypes RecordSet Client Timed TimedApi.
+From RsdnsModel Require Import Base GenTypes RecordSet Client Timed.
 From RsdnsModel.Spec Require Import Retry.
 From RsdnsModel.Proofs Require Import ClientProofs TimedProofs TimedGeneral TimedTyped.
 From RsdnsModel.Properties Require Import C16.
@@ -38,15 +38,15 @@ Check (C16_history_with_slack : forall std smol lifetime qt jit proc eps,
              match r with Ok (d, fl) => filter_of std q d = Ok (Some fl) | Err e => e = Timeout | _ => False end /\
              exists s', s = tq_start q :: s' /\ gaps (tq_start q) lifetime qt eps (tq_start q) s')
           qs (udp_history std smol lifetime qt jit proc qs queue)).
-Check (C16_typed_is_extraction_of_raw : forall std smol q cfg jit proc bs arrs srv,
+Check (C16_typed_is_extraction_of_raw : forall (W : Type) std q bs (w0 : W) raw,
   0 < bs -> class_is_data (tq_class q) = true ->
-  client_rrset_timed std smol q cfg jit proc bs arrs srv =
-  match client_call_timed std smol q cfg jit proc bs arrs srv with
+  rrset_of_raw std q bs w0 raw =
+  match raw bs with
   | (wire, ev, Ok d, t) => (wire, ev, from_msg d (tq_type q), t)
   | (wire, ev, r, t) => (wire, ev, retype r Panic, t)
   end).
-Check (C16_typed_refused_sends_nothing : forall std smol q cfg jit proc bs arrs srv,
+Check (C16_typed_refused_sends_nothing : forall (W : Type) std q bs (w0 : W) raw,
   bs = 0 \/ class_is_data (tq_class q) = false ->
-  exists e, client_rrset_timed std smol q cfg jit proc bs arrs srv = (([], None), [], Err e, tq_start q) /\
+  exists e, rrset_of_raw std q bs w0 raw = (w0, [], Err e, tq_start q) /\
             (e = BadParam \/ e = UnsupportedClass (tq_class q))).
 Print Assumptions C16_leftovers_ignored. Print Assumptions C16_leftover_accepted_only_if_matching. Print Assumptions C16_typed_query_ignores_history. Print Assumptions C16_buffer_history_safe. Print Assumptions C16_buffer_history_example. Print Assumptions C16_history_refines_spec. Print Assumptions C16_history_example. Print Assumptions C16_history_with_slack. Print Assumptions C16_typed_is_extraction_of_raw. Print Assumptions C16_typed_refused_sends_nothing.
